@@ -23,8 +23,9 @@
                      (Value::operator=(const Value&): "Copy first: val can be a member of this value")
      [apply_absorb]  detach the source first, then release what the target loses, then adopt
                      (Value::operator=(Value&&): "Detach the content first")
-   How many blocks a copy has and when storage is reallocated is capacity policy: growth / compaction
-   operations carry a flag chosen by the history (both choices are covered).
+   When storage is reallocated is capacity policy: growth / compaction operations carry a flag chosen by the
+   history (both choices are covered; in the correspondence run tools/props/ledgervalue.py the flag is what the
+   C++ did: the capacity of the target changed).  A reallocation of an object's storage drops its tombstones.
 
    Operation set and its C++ / C12 (ocaml/value.ml history codes) counterpart:
      OSetScalar t          *t = number / bool / null                      (C12 op 1, kinds 0..5)
@@ -203,12 +204,22 @@ Fixpoint has_key (key : nat) (items : list val) : bool :=
   | it :: r => match item_key it with Some k => (k =? key) || has_key key r | None => has_key key r end
   end.
 
+(* HashTable::resize (growth, merge): the removed items (tombstones) are not carried into the new storage *)
+Definition is_tomb_slot (v : val) : bool := match vtag v with TTomb => true | _ => false end.
+Definition live_slots (kids : list val) : list val := filter (fun v => negb (is_tomb_slot v)) kids.
+Definition tomb_blocks (kids : list val) : list nat := flat_map blocks (filter is_tomb_slot kids).
+Definition regrown_obj (grow : bool) (own : list nat) (kids : list val) (n : nat) : list nat * list val * nat * list nat :=
+  if grow then ([n], live_slots kids, 1, tomb_blocks kids ++ own) else (own, kids, 0, []).
+
+(* HArray::Get: "if (Size() == Capacity()) expand();" comes BEFORE the lookup: the storage can be reallocated
+   (and the tombstones dropped) even when the key exists *)
 Definition f_insert (key : nat) (grow : bool) : local := fun n c =>
   match c with
   | Node TObj own kids =>
-      if has_key key kids then (c, 0, [])
-      else let '(own', k, rem) := grown grow own n in
-           (Node TObj own' (kids ++ [Node (TItem key) [n + k] [undef]]), k + 1, rem)
+      let has := has_key key kids in
+      let '(own', kids', k, rem) := regrown_obj (match own with [] => negb has | _ => grow end) own kids n in
+      if has then (Node TObj own' kids', k, rem)
+      else (Node TObj own' (kids' ++ [Node (TItem key) [n + k] [undef]]), k + 1, rem)
   | _ => (Node TObj [n] [Node (TItem key) [n + 1] [undef]], 2, blocks c)
   end.
 
@@ -344,9 +355,8 @@ Definition f_merge_copy (src : val) (grow : bool) : local := fun n c =>
       end
   | Node TObj own kids, Node TObj _ skids =>
       let '(kids', n1, rel) := merge_copy n skids kids in
-      if length kids <? length kids' then
-        let '(own', k, rem) := grown grow own n1 in (Node TObj own' kids', (n1 - n) + k, rel ++ rem)
-      else (Node TObj own kids', n1 - n, rel)
+      let '(own', kids'', k, rem) := regrown_obj grow own kids' n1 in      (* resize(n_size) when n_size > Capacity() *)
+      (Node TObj own' kids'', (n1 - n) + k, rel ++ rem)
   | _, _ => (c0, 0, [])
   end.
 
@@ -363,9 +373,8 @@ Definition g_merge_move (grow : bool) : absorb := fun sub n c =>
       end
   | Node TObj own kids, Node TObj sown skids =>
       let '(kids', rel) := merge_move skids kids in
-      if length kids <? length kids' then
-        let '(own', k, rem) := grown grow own n in (Node TObj own' kids', k, rel ++ rem ++ sown)
-      else (Node TObj own kids', 0, rel ++ sown)
+      let '(own', kids'', k, rem) := regrown_obj grow own kids' n in
+      (Node TObj own' kids'', k, rel ++ rem ++ sown)
   | _, _ => (c0, 0, blocks sub)
   end.
 
@@ -448,3 +457,20 @@ Definition assign_copy_reset_first (st : vstate) (d s : path) : res vstate :=
       Ok (valloc_n h1 k, vset root d (copy_of (nxt h1) src))
   | _, _ => Ok st
   end.
+
+(* ---------- observers for the correspondence run (tools/props/ledgervalue.py) ---------- *)
+Definition tag_kind (t : tag) : nat :=
+  match t with TObj => 0 | TItem _ => 1 | TArr => 2 | TStr => 3 | _ => 4 end.
+(* blocks owned directly by nodes of kind k (0 object storage, 1 key blocks, 2 array blocks, 3 string blocks) *)
+Fixpoint own_count (k : nat) (v : val) : nat :=
+  match v with
+  | Node t own kids => (if tag_kind t =? k then length own else 0) + list_sum (map (own_count k) kids)
+  end.
+(* (owned ids, object storage blocks, key blocks, array blocks, string blocks) *)
+Definition vobserve (st : vstate) : nat * nat * nat * nat * nat :=
+  (length (blocks (snd st)), own_count 0 (snd st), own_count 1 (snd st), own_count 2 (snd st), own_count 3 (snd st)).
+Definition vstep_obs (st : vstate) (op : vop) : option (vstate * (nat * nat * nat * nat * nat)) :=
+  match vstep st op with Ok st' => Some (st', vobserve st') | Error _ => None end.
+(* ids still live after ~Value of every variable *)
+Definition vfinal_live (st : vstate) : option nat :=
+  match destroy_all_values st with Ok st' => Some (length (live_ids (fst st'))) | Error _ => None end.
